@@ -206,7 +206,12 @@ func (fu *folderUpload) FormattedPath() string {
 	// TODO: implement scanner interface instead?
 	for i := uint16(0); i < pathItemLen; i++ {
 		segLen := int(pathData[2])
-		pathSegments = append(pathSegments, string(pathData[3:3+segLen]))
+		// Names travel in Mac Roman and are stored in UTF-8, like the names of every other file request.
+		seg, err := txtDecoder.String(string(pathData[3 : 3+segLen]))
+		if err != nil {
+			seg = string(pathData[3 : 3+segLen])
+		}
+		pathSegments = append(pathSegments, seg)
 		pathData = pathData[3+segLen:]
 	}
 
